@@ -1,6 +1,7 @@
 (* C15: lemmas about model/Flatten.v *)
 From TS Require Import model.Base model.Flatten.
-From Coq Require Import Decimal DecimalZ DecimalPos Permutation.
+From Coq Require Decimal DecimalZ DecimalPos.
+From Coq Require Import Permutation.
 
 (* ================================================================== 1. strings *)
 Lemma str_eqb_eq : forall a b, str_eqb a b = true <-> a = b.
@@ -103,7 +104,7 @@ Proof.
   destruct H.
 Qed.
 
-Lemma pos_to_uint_nonnil : forall p, Pos.to_uint p <> Nil.
+Lemma pos_to_uint_nonnil : forall p, Pos.to_uint p <> Decimal.Nil.
 Proof.
   intros p H. pose proof (DecimalZ.of_to (Z.pos p)) as E. cbn [Z.to_int Z.of_int] in E. rewrite H in E.
   cbn in E. discriminate.
@@ -112,7 +113,7 @@ Qed.
 Lemma of_uint_pos : forall p, Z.of_uint (Pos.to_uint p) = Z.pos p.
 Proof. intro p. exact (DecimalZ.of_to (Z.pos p)). Qed.
 
-Lemma parse_digits : forall d, d <> Nil ->
+Lemma parse_digits : forall d, d <> Decimal.Nil ->
   parse_int (uint_chars d) = Some (Z.of_uint d).
 Proof.
   intros d Hd. destruct (uint_chars d) as [|c r] eqn:E.
@@ -172,4 +173,962 @@ Proof.
   - cbn [join]. apply split_slash_free. exact Ht.
   - change (join (t :: t2 :: r)) with (t ++ 47 :: join (t2 :: r)).
     rewrite split_app_slash by exact Ht. rewrite IH; [reflexivity | discriminate | exact Hr].
+Qed.
+
+(* ================================================================== 2. objects: kids, induction, flatten equations *)
+(* a leaf of the flattening: a real leaf, or a dict that _should_flatten_dict rejects *)
+Definition is_leaflike (o : obj) : bool :=
+  match o with
+  | Leaf _ => true
+  | OList _ => false
+  | ODict _ kvs => negb (should_flatten (map fst kvs))
+  end.
+
+Definition entry_of (o : obj) : entry :=
+  match o with
+  | Leaf _ => EList
+  | OList _ => EList
+  | ODict ord kvs => EDict ord (map fst kvs)
+  end.
+
+(* children of a container with the path token flatten gives them *)
+Definition kids (o : obj) : list (token * obj) :=
+  match o with
+  | Leaf _ => []
+  | OList xs => combine (list_tokens (length xs)) xs
+  | ODict _ kvs => map (fun kv => (key_token (fst kv), snd kv)) kvs
+  end.
+
+Definition flat_kids (P : path) (ks : list (token * obj)) : manifest * leafmap :=
+  (flat_map (fun tc => fst (flatten (snd tc) (P ++ [fst tc]))) ks,
+   flat_map (fun tc => snd (flatten (snd tc) (P ++ [fst tc]))) ks).
+
+Section ObjInd.
+  Variable Q : obj -> Prop.
+  Hypothesis HL : forall l, Q (Leaf l).
+  Hypothesis HLi : forall xs, Forall Q xs -> Q (OList xs).
+  Hypothesis HD : forall ord kvs, Forall (fun kv => Q (snd kv)) kvs -> Q (ODict ord kvs).
+  Fixpoint obj_ind' (o : obj) : Q o :=
+    match o with
+    | Leaf l => HL l
+    | OList xs => HLi xs ((fix go (xs : list obj) : Forall Q xs :=
+                             match xs with
+                             | [] => Forall_nil _
+                             | x :: r => Forall_cons x (obj_ind' x) (go r)
+                             end) xs)
+    | ODict ord kvs => HD ord kvs ((fix go (kvs : list (key * obj)) : Forall (fun kv => Q (snd kv)) kvs :=
+                                     match kvs with
+                                     | [] => Forall_nil _
+                                     | kv :: r => Forall_cons kv (obj_ind' (snd kv)) (go r)
+                                     end) kvs)
+    end.
+End ObjInd.
+
+Lemma in_combine_snd : forall {A B} (l : list A) (l' : list B) a b, In (a, b) (combine l l') -> In b l'.
+Proof. intros A B l l' a b H. exact (in_combine_r l l' a b H). Qed.
+
+(* induction over the children as flatten sees them *)
+Lemma obj_kids_ind : forall Q : obj -> Prop,
+  (forall o, (forall t c, In (t, c) (kids o) -> Q c) -> Q o) -> forall o, Q o.
+Proof.
+  intros Q H. induction o using obj_ind'.
+  - apply H. intros t c [].
+  - apply H. intros t c Hin. cbn [kids] in Hin. apply in_combine_snd in Hin.
+    rewrite Forall_forall in H0. exact (H0 c Hin).
+  - apply H. intros t c Hin. cbn [kids] in Hin. apply in_map_iff in Hin. destruct Hin as [kv [E Hin]].
+    inversion E; subst. rewrite Forall_forall in H0. exact (H0 kv Hin).
+Qed.
+
+Lemma flatten_leaflike : forall o P, is_leaflike o = true -> flatten o P = ([], [(P, o)]).
+Proof.
+  intros o P H. destruct o as [l|xs|ord kvs]; cbn [is_leaflike] in H.
+  - reflexivity.
+  - discriminate.
+  - cbn [flatten]. apply negb_true_iff in H. rewrite H. reflexivity.
+Qed.
+
+Lemma flatten_container : forall o P, is_leaflike o = false ->
+  flatten o P = ((P, entry_of o) :: fst (flat_kids P (kids o)), snd (flat_kids P (kids o))).
+Proof.
+  intros o P H. destruct o as [l|xs|ord kvs]; cbn [is_leaflike] in H.
+  - discriminate.
+  - cbn [flatten entry_of kids]. generalize (list_tokens (length xs)) as ts.
+    intro ts.
+    assert (G : forall xs ts,
+      (fix go (xs0 : list obj) (ts0 : list token) {struct xs0} : manifest * leafmap :=
+         match xs0 with
+         | [] => ([], [])
+         | x :: xs' => match ts0 with
+                       | [] => ([], [])
+                       | t :: ts' => (fst (flatten x (P ++ [t])) ++ fst (go xs' ts'), snd (flatten x (P ++ [t])) ++ snd (go xs' ts'))
+                       end
+         end) xs ts = flat_kids P (combine ts xs)).
+    { clear. induction xs as [|x xs IH]; intros ts.
+      - destruct ts; reflexivity.
+      - destruct ts as [|t ts]; [reflexivity|]. rewrite IH. reflexivity. }
+    rewrite G. reflexivity.
+  - apply negb_false_iff in H. cbn [flatten entry_of kids]. rewrite H.
+    assert (G : forall kvs,
+      (fix go (kvs0 : list (key * obj)) : manifest * leafmap :=
+         match kvs0 with
+         | [] => ([], [])
+         | kv :: kvs' => (fst (flatten (snd kv) (P ++ [key_token (fst kv)])) ++ fst (go kvs'),
+                          snd (flatten (snd kv) (P ++ [key_token (fst kv)])) ++ snd (go kvs'))
+         end) kvs = flat_kids P (map (fun kv => (key_token (fst kv), snd kv)) kvs)).
+    { clear. induction kvs as [|kv kvs IH]; [reflexivity|]. rewrite IH. reflexivity. }
+    rewrite G. reflexivity.
+Qed.
+
+(* ================================================================== 3. well-formed objects, distinct tokens *)
+(* dict keys pairwise distinct under Python equality - every Python dict satisfies this *)
+Fixpoint keys_distinctb (ks : list key) : bool :=
+  match ks with
+  | [] => true
+  | k :: r => negb (existsb (py_eqb k) r) && keys_distinctb r
+  end.
+
+(* required only of the dicts flatten descends into; a dict kept whole is not inspected *)
+Fixpoint wf_objb (o : obj) : bool :=
+  match o with
+  | Leaf _ => true
+  | OList xs => forallb wf_objb xs
+  | ODict _ kvs =>
+      if should_flatten (map fst kvs)
+      then keys_distinctb (map fst kvs) && forallb (fun kv => wf_objb (snd kv)) kvs
+      else true
+  end.
+Definition wf_obj (o : obj) : Prop := wf_objb o = true.
+
+Lemma wf_kids : forall o, wf_obj o -> is_leaflike o = false ->
+  forall t c, In (t, c) (kids o) -> wf_obj c.
+Proof.
+  unfold wf_obj. intros o W L t c Hin. destruct o as [l|xs|ord kvs]; cbn [is_leaflike] in L.
+  - discriminate.
+  - cbn [kids] in Hin. apply in_combine_snd in Hin. cbn [wf_objb] in W.
+    rewrite forallb_forall in W. exact (W c Hin).
+  - apply negb_false_iff in L. cbn [wf_objb] in W. rewrite L in W. apply andb_true_iff in W. destruct W as [_ W].
+    cbn [kids] in Hin. apply in_map_iff in Hin. destruct Hin as [kv [E Hin]]. inversion E; subst.
+    rewrite forallb_forall in W. exact (W kv Hin).
+Qed.
+
+Lemma fromkeys_acc_id : forall ks seen, keys_distinctb ks = true ->
+  (forall k, In k ks -> key_memb k seen = false) -> fromkeys_acc seen ks = ks.
+Proof.
+  induction ks as [|k r IH]; intros seen D S; [reflexivity|].
+  cbn [keys_distinctb] in D. apply andb_true_iff in D. destruct D as [D1 D2]. apply negb_true_iff in D1.
+  cbn [fromkeys_acc]. rewrite (S k (or_introl eq_refl)). f_equal. apply IH; [exact D2|].
+  intros k' Hin. cbn [key_memb]. rewrite (S k' (or_intror Hin)), orb_false_r.
+  destruct (py_eqb k k') eqn:E; [|reflexivity].
+  assert (X : existsb (py_eqb k) r = true) by (apply existsb_exists; exists k'; split; assumption). congruence.
+Qed.
+
+Lemma fromkeys_id : forall ks, keys_distinctb ks = true -> fromkeys ks = ks.
+Proof. intros ks D. apply fromkeys_acc_id; [exact D | reflexivity]. Qed.
+
+Lemma str_memb_in : forall x l, str_memb x l = true <-> In x l.
+Proof.
+  induction l as [|y r IH]; cbn [str_memb In]; [split; [discriminate | tauto]|].
+  rewrite orb_true_iff, IH, str_eqb_eq. split; intros [H|H]; auto.
+Qed.
+
+Lemma dedup_length_le : forall l, (length (dedup l) <= length l)%nat.
+Proof.
+  induction l as [|x r IH]; cbn [dedup length]; [lia|]. destruct (str_memb x r); cbn [length]; lia.
+Qed.
+
+Lemma dedup_full_nodup : forall l, length (dedup l) = length l -> NoDup l.
+Proof.
+  induction l as [|x r IH]; intro H; [constructor|].
+  cbn [dedup] in H. destruct (str_memb x r) eqn:E.
+  - pose proof (dedup_length_le r). cbn [length] in H. lia.
+  - cbn [length] in H. constructor.
+    + intro K. apply str_memb_in in K. congruence.
+    + apply IH. lia.
+Qed.
+
+Lemma should_flatten_spec : forall ks, should_flatten ks = true ->
+  forallb is_str_or_int ks = true /\ NoDup (map key_str ks).
+Proof.
+  intros ks H. unfold should_flatten in H.
+  destruct (forallb is_str_or_int ks) eqn:E1; cbn [negb] in H; [|discriminate]. split; [reflexivity|].
+  destruct (Z.of_nat (length (dedup (map key_str ks))) <? Z.of_nat (length ks)) eqn:E2; [discriminate|].
+  apply Z.ltb_ge in E2. apply dedup_full_nodup. pose proof (dedup_length_le (map key_str ks)) as L.
+  rewrite map_length in *. lia.
+Qed.
+
+Lemma NoDup_map_inj : forall {A B} (f : A -> B) l, (forall a b, f a = f b -> a = b) -> NoDup l -> NoDup (map f l).
+Proof.
+  intros A B f l Hf N. induction N as [|x l Hx N IH]; cbn [map]; constructor; [|exact IH].
+  intro K. apply in_map_iff in K. destruct K as [y [E Hy]]. apply Hf in E. subst. contradiction.
+Qed.
+
+Lemma list_tokens_nodup : forall n, NoDup (list_tokens n).
+Proof.
+  intro n. unfold list_tokens. apply NoDup_map_inj; [|apply seq_NoDup].
+  intros a b H. apply str_of_Z_inj in H. lia.
+Qed.
+
+Lemma map_fst_combine : forall {A B} (l : list A) (l' : list B), length l = length l' -> map fst (combine l l') = l.
+Proof.
+  induction l as [|a l IH]; destruct l' as [|b l']; cbn; intro H; try reflexivity; try discriminate.
+  f_equal. apply IH. lia.
+Qed.
+
+Lemma map_snd_combine : forall {A B} (l : list A) (l' : list B), length l = length l' -> map snd (combine l l') = l'.
+Proof.
+  induction l as [|a l IH]; destruct l' as [|b l']; cbn; intro H; try reflexivity; try discriminate.
+  f_equal. apply IH. lia.
+Qed.
+
+Lemma list_tokens_length : forall n, length (list_tokens n) = n.
+Proof. intro n. unfold list_tokens. rewrite map_length, seq_length. reflexivity. Qed.
+
+(* the path tokens flatten gives to the children of one container are pairwise distinct *)
+Lemma kids_tokens_nodup : forall o, is_leaflike o = false -> NoDup (map fst (kids o)).
+Proof.
+  intros o L. destruct o as [l|xs|ord kvs]; cbn [is_leaflike] in L.
+  - discriminate.
+  - cbn [kids]. rewrite map_fst_combine by apply list_tokens_length. apply list_tokens_nodup.
+  - apply negb_false_iff in L. apply should_flatten_spec in L. destruct L as [_ N].
+    cbn [kids]. replace (map fst (map (fun kv : key * obj => (key_token (fst kv), snd kv)) kvs))
+      with (map encode (map key_str (map fst kvs))) by (rewrite !map_map; reflexivity).
+    apply NoDup_map_inj; [exact encode_inj | exact N].
+Qed.
+
+Lemma NoDup_fst_pair : forall {A B} (l : list (A * B)), NoDup (map fst l) -> NoDup l.
+Proof.
+  intros A B l. induction l as [|x l IH]; cbn [map]; intro N; [constructor|].
+  inversion N as [|? ? Hx N']; subst. constructor; [|exact (IH N')].
+  intro K. apply Hx. apply in_map. exact K.
+Qed.
+
+Lemma fst_unique : forall {A B} (l : list (A * B)) a b b', NoDup (map fst l) -> In (a, b) l -> In (a, b') l -> b = b'.
+Proof.
+  intros A B l a b b'. induction l as [|x l IH]; cbn [map]; intros N H1 H2; [destruct H1|].
+  inversion N as [|? ? Hx N']; subst. destruct H1 as [H1|H1], H2 as [H2|H2].
+  - congruence.
+  - subst x. exfalso. apply Hx. apply (in_map fst) in H2. exact H2.
+  - subst x. exfalso. apply Hx. apply (in_map fst) in H1. exact H1.
+  - exact (IH N' H1 H2).
+Qed.
+
+(* ================================================================== 4. the paths flatten produces *)
+Lemma in_flatten_m_container : forall o P q e, is_leaflike o = false ->
+  (In (q, e) (fst (flatten o P)) <->
+   (q = P /\ e = entry_of o) \/ exists t c, In (t, c) (kids o) /\ In (q, e) (fst (flatten c (P ++ [t])))).
+Proof.
+  intros o P q e L. rewrite (flatten_container o P L). cbn [fst flat_kids In]. rewrite in_flat_map. split.
+  - intros [H|[[t c] [H1 H2]]]; [left; inversion H; auto | right; exists t, c; auto].
+  - intros [[H1 H2]|[t [c [H1 H2]]]]; [left; subst; reflexivity | right; exists (t, c); auto].
+Qed.
+
+Lemma in_flatten_l_container : forall o P q x, is_leaflike o = false ->
+  (In (q, x) (snd (flatten o P)) <->
+   exists t c, In (t, c) (kids o) /\ In (q, x) (snd (flatten c (P ++ [t])))).
+Proof.
+  intros o P q x L. rewrite (flatten_container o P L). cbn [snd flat_kids]. rewrite in_flat_map. split.
+  - intros [[t c] [H1 H2]]. exists t, c; auto.
+  - intros [t [c [H1 H2]]]. exists (t, c); auto.
+Qed.
+
+Lemma flatten_prefix : forall o P,
+  (forall q e, In (q, e) (fst (flatten o P)) -> exists r, q = P ++ r) /\
+  (forall q x, In (q, x) (snd (flatten o P)) -> exists r, q = P ++ r).
+Proof.
+  induction o using obj_kids_ind. intro P. destruct (is_leaflike o) eqn:L.
+  - rewrite (flatten_leaflike o P L). cbn [fst snd In]. split; [intros q e [] |].
+    intros q x [E|[]]. inversion E; subst. exists []. rewrite app_nil_r. reflexivity.
+  - split.
+    + intros q e Hin. apply (in_flatten_m_container o P q e L) in Hin.
+      destruct Hin as [[E _]|[t [c [Hk Hin]]]].
+      * exists []. rewrite app_nil_r. exact E.
+      * destruct (H t c Hk (P ++ [t])) as [Hm _]. destruct (Hm q e Hin) as [r E].
+        exists (t :: r). rewrite E, <- app_assoc. reflexivity.
+    + intros q x Hin. apply (in_flatten_l_container o P q x L) in Hin. destruct Hin as [t [c [Hk Hin]]].
+      destruct (H t c Hk (P ++ [t])) as [_ Hl]. destruct (Hl q x Hin) as [r E].
+      exists (t :: r). rewrite E, <- app_assoc. reflexivity.
+Qed.
+
+Lemma app_cons_neq : forall {A} (P : list A) t r, P ++ t :: r <> P.
+Proof.
+  intros A P t r E. apply (f_equal (@length A)) in E. rewrite app_length in E. cbn [length] in E. lia.
+Qed.
+
+Lemma app_cons_inv : forall {A} (P : list A) t r t' r', P ++ t :: r = P ++ t' :: r' -> t = t' /\ r = r'.
+Proof. intros A P t r t' r' E. apply app_inv_head in E. inversion E; auto. Qed.
+
+(* what sits exactly at the root path *)
+Lemma root_entry : forall o P e, In (P, e) (fst (flatten o P)) -> is_leaflike o = false /\ e = entry_of o.
+Proof.
+  intros o P e Hin. destruct (is_leaflike o) eqn:L.
+  - rewrite (flatten_leaflike o P L) in Hin. destruct Hin.
+  - split; [reflexivity|]. apply (in_flatten_m_container o P P e L) in Hin.
+    destruct Hin as [[_ E]|[t [c [Hk Hin]]]]; [exact E|].
+    destruct (flatten_prefix c (P ++ [t])) as [Hm _]. destruct (Hm P e Hin) as [r E].
+    rewrite <- app_assoc in E. symmetry in E. exfalso. exact (app_cons_neq P t r E).
+Qed.
+
+Lemma root_leaf : forall o P x, In (P, x) (snd (flatten o P)) -> is_leaflike o = true /\ x = o.
+Proof.
+  intros o P x Hin. destruct (is_leaflike o) eqn:L.
+  - rewrite (flatten_leaflike o P L) in Hin. destruct Hin as [E|[]]. inversion E. auto.
+  - exfalso. apply (in_flatten_l_container o P P x L) in Hin. destruct Hin as [t [c [Hk Hin]]].
+    destruct (flatten_prefix c (P ++ [t])) as [_ Hl]. destruct (Hl P x Hin) as [r E].
+    rewrite <- app_assoc in E. symmetry in E. exact (app_cons_neq P t r E).
+Qed.
+
+Lemma root_entry_in : forall o P, is_leaflike o = false -> In (P, entry_of o) (fst (flatten o P)).
+Proof. intros o P L. apply (in_flatten_m_container o P P _ L). left. auto. Qed.
+
+Lemma root_leaf_in : forall o P, is_leaflike o = true -> In (P, o) (snd (flatten o P)).
+Proof. intros o P L. rewrite (flatten_leaflike o P L). left. reflexivity. Qed.
+
+(* ---------------- pairwise distinct paths ---------------- *)
+Definition all_paths (o : obj) (P : path) : list path :=
+  map fst (fst (flatten o P)) ++ map fst (snd (flatten o P)).
+
+Lemma all_paths_prefix : forall o P q, In q (all_paths o P) -> exists r, q = P ++ r.
+Proof.
+  intros o P q Hin. unfold all_paths in Hin. destruct (flatten_prefix o P) as [Hm Hl].
+  apply in_app_or in Hin. destruct Hin as [Hin|Hin]; apply in_map_iff in Hin; destruct Hin as [[q' v] [E Hin]];
+    cbn [fst] in E; subst q'; [exact (Hm q v Hin) | exact (Hl q v Hin)].
+Qed.
+
+Lemma NoDup_app_intro : forall {A} (l1 l2 : list A),
+  NoDup l1 -> NoDup l2 -> (forall x, In x l1 -> ~ In x l2) -> NoDup (l1 ++ l2).
+Proof.
+  intros A l1 l2 N1 N2 D. induction N1 as [|x l1 Hx N1 IH]; [exact N2|].
+  cbn [app]. constructor.
+  - intro K. apply in_app_or in K. destruct K as [K|K]; [contradiction | exact (D x (or_introl eq_refl) K)].
+  - apply IH. intros y Hy. apply D. right. exact Hy.
+Qed.
+
+Lemma NoDup_flat_map_tagged : forall (P : path) (F : token * obj -> list path) (ks : list (token * obj)),
+  NoDup (map fst ks) ->
+  (forall tc, In tc ks -> NoDup (F tc)) ->
+  (forall tc q, In tc ks -> In q (F tc) -> exists r, q = P ++ fst tc :: r) ->
+  NoDup (flat_map F ks).
+Proof.
+  intros P F ks. induction ks as [|a ks IH]; cbn [map flat_map]; intros N HN HT; [constructor|].
+  inversion N as [|? ? Ha N']; subst. apply NoDup_app_intro.
+  - apply HN. left. reflexivity.
+  - apply IH; [exact N' | intros; apply HN; right; assumption | intros tc q H1 H2; apply (HT tc q); [right|]; assumption].
+  - intros q H1 H2. apply in_flat_map in H2. destruct H2 as [b [Hb H2]].
+    destruct (HT a q (or_introl eq_refl) H1) as [r E]. destruct (HT b q (or_intror Hb) H2) as [r' E'].
+    rewrite E in E'. apply app_cons_inv in E'. destruct E' as [E' _]. apply Ha. rewrite E'. apply in_map. exact Hb.
+Qed.
+
+Lemma map_flat_map : forall {A B C} (g : B -> C) (f : A -> list B) l,
+  map g (flat_map f l) = flat_map (fun x => map g (f x)) l.
+Proof. intros A B C g f l. induction l as [|a l IH]; cbn [flat_map map]; [reflexivity|]. rewrite map_app, IH. reflexivity. Qed.
+
+Lemma flat_map_app_perm : forall {A B} (f g : A -> list B) l,
+  Permutation (flat_map f l ++ flat_map g l) (flat_map (fun x => f x ++ g x) l).
+Proof.
+  intros A B f g l. induction l as [|a l IH]; cbn [flat_map]; [constructor|].
+  rewrite <- app_assoc. rewrite <- app_assoc. apply Permutation_app_head.
+  eapply Permutation_trans; [apply Permutation_app_swap_app|]. apply Permutation_app_head. exact IH.
+Qed.
+
+Lemma all_paths_container : forall o P, is_leaflike o = false ->
+  Permutation (all_paths o P) (P :: flat_map (fun tc => all_paths (snd tc) (P ++ [fst tc])) (kids o)).
+Proof.
+  intros o P L. unfold all_paths at 1. rewrite (flatten_container o P L). cbn [fst snd flat_kids map app].
+  constructor. rewrite !map_flat_map. apply flat_map_app_perm.
+Qed.
+
+Lemma all_paths_nodup : forall o P, NoDup (all_paths o P).
+Proof.
+  induction o using obj_kids_ind. intro P. destruct (is_leaflike o) eqn:L.
+  - unfold all_paths. rewrite (flatten_leaflike o P L). cbn. constructor; [tauto | constructor].
+  - apply (Permutation_NoDup (Permutation_sym (all_paths_container o P L))). constructor.
+    + intro K. apply in_flat_map in K. destruct K as [[t c] [Hk K]]. cbn [fst snd] in K.
+      apply all_paths_prefix in K. destruct K as [r E]. rewrite <- app_assoc in E. symmetry in E.
+      exact (app_cons_neq P t r E).
+    + apply (NoDup_flat_map_tagged P).
+      * apply kids_tokens_nodup. exact L.
+      * intros [t c] Hk. cbn [fst snd]. exact (H t c Hk (P ++ [t])).
+      * intros [t c] q Hk Hq. cbn [fst snd] in *. apply all_paths_prefix in Hq. destruct Hq as [r E].
+        exists r. rewrite E, <- app_assoc. reflexivity.
+Qed.
+
+Lemma NoDup_app_l : forall {A} (l1 l2 : list A), NoDup (l1 ++ l2) -> NoDup l1.
+Proof.
+  intros A l1 l2. induction l1 as [|x l1 IH]; cbn [app]; intro N; [constructor|].
+  inversion N as [|? ? Hx N']; subst. constructor; [|exact (IH N')]. intro K. apply Hx. apply in_or_app. left. exact K.
+Qed.
+
+Lemma NoDup_app_r : forall {A} (l1 l2 : list A), NoDup (l1 ++ l2) -> NoDup l2.
+Proof.
+  intros A l1 l2. induction l1 as [|x l1 IH]; cbn [app]; intro N; [exact N|].
+  inversion N; subst. apply IH. assumption.
+Qed.
+
+Lemma mpaths_nodup : forall o P, NoDup (map fst (fst (flatten o P))).
+Proof. intros o P. exact (NoDup_app_l _ _ (all_paths_nodup o P)). Qed.
+Lemma lpaths_nodup : forall o P, NoDup (map fst (snd (flatten o P))).
+Proof. intros o P. exact (NoDup_app_r _ _ (all_paths_nodup o P)). Qed.
+
+(* ================================================================== 5. the pieces of inflate *)
+Lemma strip_prefix_spec : forall P q r, strip_prefix P q = Some r <-> q = P ++ r.
+Proof.
+  induction P as [|a P IH]; intros q r; cbn [strip_prefix app].
+  - split; intro H; [inversion H | subst]; reflexivity.
+  - destruct q as [|b q]; [split; discriminate|].
+    destruct (str_eqb a b) eqn:E.
+    + apply str_eqb_eq in E. subst b. rewrite IH. split; intro H; [subst | inversion H]; reflexivity.
+    + apply str_eqb_neq in E. split; [discriminate|]. intro H. inversion H. congruence.
+Qed.
+
+Lemma in_children : forall {A} (l : list (path * A)) P t x, In (t, x) (children l P) <-> In (P ++ [t], x) l.
+Proof.
+  intros A l P t x. unfold children. rewrite in_flat_map. split.
+  - intros [[q y] [Hin H]]. cbn [fst snd] in H. destruct (strip_prefix P q) as [r|] eqn:E; [|destruct H].
+    destruct r as [|t' [|? ?]]; [destruct H | | destruct H]. destruct H as [H|[]].
+    inversion H; subst. apply strip_prefix_spec in E. subst q. exact Hin.
+  - intro Hin. exists (P ++ [t], x). split; [exact Hin|]. cbn [fst snd].
+    assert (E : strip_prefix P (P ++ [t]) = Some [t]) by (apply strip_prefix_spec; reflexivity).
+    rewrite E. left. reflexivity.
+Qed.
+
+Lemma children_nodup : forall {A} (l : list (path * A)) P, NoDup (map fst l) -> NoDup (map fst (children l P)).
+Proof.
+  intros A l P. induction l as [|[q y] l IH]; cbn [map]; intro N; [constructor|].
+  inversion N as [|? ? Hq N']; subst. unfold children. cbn [flat_map fst snd]. fold (children l P).
+  destruct (strip_prefix P q) as [r|] eqn:E; [|exact (IH N')].
+  destruct r as [|t [|? ?]]; try exact (IH N'). cbn [app map fst]. constructor; [|exact (IH N')].
+  intro K. apply in_map_iff in K. destruct K as [[t' x] [E' K]]. cbn [fst] in E'. subst t'.
+  apply in_children in K. apply strip_prefix_spec in E. subst q. apply Hq. apply (in_map fst) in K. exact K.
+Qed.
+
+(* ---------------- association lists ---------------- *)
+Lemma assoc_str_in : forall {A} (l : list (pystr * A)) s v, NoDup (map fst l) -> In (s, v) l -> assoc_str s l = Some v.
+Proof.
+  intros A l s v. induction l as [|[t w] l IH]; cbn [map fst]; intros N Hin; [destruct Hin|].
+  inversion N as [|? ? Ht N']; subst. cbn [assoc_str]. destruct Hin as [E|Hin].
+  - inversion E; subst. rewrite str_eqb_refl. reflexivity.
+  - destruct (str_eqb s t) eqn:E; [|exact (IH N' Hin)].
+    apply str_eqb_eq in E. subst t. exfalso. apply Ht. apply (in_map fst) in Hin. exact Hin.
+Qed.
+
+Lemma assoc_path_in : forall {A} (l : list (path * A)) p v, NoDup (map fst l) -> In (p, v) l -> assoc_path p l = Some v.
+Proof.
+  intros A l p v. induction l as [|[t w] l IH]; cbn [map fst]; intros N Hin; [destruct Hin|].
+  inversion N as [|? ? Ht N']; subst. cbn [assoc_path]. destruct Hin as [E|Hin].
+  - inversion E; subst. rewrite path_eqb_refl. reflexivity.
+  - destruct (path_eqb p t) eqn:E; [|exact (IH N' Hin)].
+    apply path_eqb_eq in E. subst t. exfalso. apply Ht. apply (in_map fst) in Hin. exact Hin.
+Qed.
+
+Lemma assoc_path_none : forall {A} (l : list (path * A)) p, ~ In p (map fst l) -> assoc_path p l = None.
+Proof.
+  intros A l p. induction l as [|[t w] l IH]; cbn [map fst In assoc_path]; intro H; [reflexivity|].
+  destruct (path_eqb p t) eqn:E; [apply path_eqb_eq in E; subst; tauto | apply IH; tauto].
+Qed.
+
+(* ---------------- mapM ---------------- *)
+Lemma mapM_map : forall {A B} (f : A -> option B) (g : A -> B) l,
+  (forall x, In x l -> f x = Some (g x)) -> mapM f l = Some (map g l).
+Proof.
+  intros A B f g l. induction l as [|x l IH]; intro H; [reflexivity|].
+  cbn [mapM map]. rewrite (H x (or_introl eq_refl)), IH; [reflexivity|]. intros y Hy. apply H. right. exact Hy.
+Qed.
+
+(* ---------------- sorting a permutation of a strictly sorted list ---------------- *)
+Fixpoint ssorted {A} (l : list (Z * A)) : Prop :=
+  match l with
+  | [] => True
+  | x :: r => (forall y, In y r -> fst x < fst y) /\ ssorted r
+  end.
+
+Lemma insert_mid : forall {A} (x : Z * A) s1 s2,
+  (forall y, In y s1 -> fst y < fst x) -> (forall y, In y s2 -> fst x < fst y) ->
+  insert_by x (s1 ++ s2) = s1 ++ x :: s2.
+Proof.
+  intros A x s1 s2 H1 H2. induction s1 as [|y s1 IH]; cbn [app].
+  - destruct s2 as [|y s2]; [reflexivity|]. cbn [insert_by].
+    pose proof (H2 y (or_introl eq_refl)) as L. destruct (fst y <=? fst x) eqn:E; [apply Z.leb_le in E; lia | reflexivity].
+  - cbn [insert_by]. pose proof (H1 y (or_introl eq_refl)) as L.
+    destruct (fst y <=? fst x) eqn:E; [|apply Z.leb_gt in E; lia].
+    rewrite IH; [reflexivity|]. intros z Hz. apply H1. right. exact Hz.
+Qed.
+
+Lemma ssorted_app_cons : forall {A} (s1 : list (Z * A)) x s2, ssorted (s1 ++ x :: s2) ->
+  (forall y, In y s1 -> fst y < fst x) /\ (forall y, In y s2 -> fst x < fst y) /\ ssorted (s1 ++ s2).
+Proof.
+  intros A s1 x s2. induction s1 as [|y s1 IH]; cbn [app ssorted].
+  - intros [H1 H2]. split; [intros y []|]. split; assumption.
+  - intros [H1 H2]. destruct (IH H2) as [I1 [I2 I3]]. split; [|split].
+    + intros z [E|Hz]; [subst z; apply H1; apply in_or_app; right; left; reflexivity | exact (I1 z Hz)].
+    + exact I2.
+    + split; [|exact I3]. intros z Hz. apply H1. apply in_app_or in Hz. apply in_or_app.
+      destruct Hz as [Hz|Hz]; [left | right; right]; exact Hz.
+Qed.
+
+Lemma isort_perm_ssorted : forall {A} (l s : list (Z * A)), Permutation l s -> ssorted s -> isort l = s.
+Proof.
+  intros A l. induction l as [|x l IH]; intros s Hp Hs.
+  - apply Permutation_nil in Hp. subst. reflexivity.
+  - assert (Hin : In x s) by (apply (Permutation_in _ Hp); left; reflexivity).
+    apply in_split in Hin. destruct Hin as [s1 [s2 E]]. subst s.
+    apply Permutation_cons_app_inv in Hp. apply ssorted_app_cons in Hs. destruct Hs as [H1 [H2 H3]].
+    cbn [isort]. rewrite (IH (s1 ++ s2) Hp H3). apply insert_mid; assumption.
+Qed.
+
+Lemma ssorted_combine_seq : forall {A} (xs : list A) a n,
+  ssorted (combine (map Z.of_nat (seq a n)) xs).
+Proof.
+  intros A xs. induction xs as [|x xs IH]; intros a n.
+  - destruct (map Z.of_nat (seq a n)); exact I.
+  - destruct n as [|n]; [exact I|]. cbn [seq map combine ssorted]. split; [|apply IH].
+    intros y Hy. destruct y as [i v]. apply in_combine_l in Hy. apply in_map_iff in Hy.
+    destruct Hy as [j [E Hj]]. apply in_seq in Hj. cbn [fst]. lia.
+Qed.
+
+(* ---------------- populate: lists ---------------- *)
+Definition parse_tv (tv : token * obj) : Z * obj :=
+  (match parse_int (fst tv) with Some z => z | None => 0 end, snd tv).
+
+Lemma parse_tv_combine : forall l xs,
+  map parse_tv (combine (map (fun i => str_of_Z (Z.of_nat i)) l) xs) = combine (map Z.of_nat l) xs.
+Proof.
+  induction l as [|i l IH]; intros xs; [reflexivity|]. destruct xs as [|x xs]; [reflexivity|].
+  cbn [map combine]. rewrite IH. unfold parse_tv at 1. cbn [fst snd]. rewrite parse_int_str_of_Z. reflexivity.
+Qed.
+
+Lemma populate_list : forall xs vals, Permutation vals (kids (OList xs)) -> populate EList vals = Some (OList xs).
+Proof.
+  intros xs vals Hp. cbn [populate].
+  assert (M : mapM (fun tv => option_map (fun z => (z, snd tv)) (parse_int (fst tv))) vals = Some (map parse_tv vals)).
+  { apply mapM_map. intros [t v] Hin. apply (Permutation_in _ Hp) in Hin. cbn [kids] in Hin.
+    apply in_combine_l in Hin. unfold list_tokens in Hin. apply in_map_iff in Hin. destruct Hin as [i [E _]].
+    subst t. unfold parse_tv. cbn [fst snd]. rewrite parse_int_str_of_Z. reflexivity. }
+  rewrite M. unfold sort_by_int.
+  assert (S : isort (map parse_tv vals) = combine (map Z.of_nat (seq 0 (length xs))) xs).
+  { apply isort_perm_ssorted; [|apply ssorted_combine_seq].
+    rewrite <- parse_tv_combine. apply Permutation_map. exact Hp. }
+  rewrite S, map_snd_combine; [reflexivity|]. rewrite map_length, seq_length. reflexivity.
+Qed.
+
+(* ---------------- populate: dicts ---------------- *)
+Lemma populate_dict : forall ord kvs vals,
+  should_flatten (map fst kvs) = true -> keys_distinctb (map fst kvs) = true ->
+  Permutation vals (kids (ODict ord kvs)) ->
+  populate (EDict ord (map fst kvs)) vals = Some (ODict ord kvs).
+Proof.
+  intros ord kvs vals SF KD Hp. cbn [populate]. rewrite (fromkeys_id _ KD).
+  cbv zeta. match goal with |- context [assoc_str _ ?d] => remember d as dec eqn:Edec end.
+  assert (ND : NoDup (map fst dec)).
+  { rewrite Edec. rewrite map_map. cbn [fst].
+    apply (Permutation_NoDup (l := map (fun tv : token * obj => decode (fst tv)) (kids (ODict ord kvs)))).
+    - apply Permutation_map. apply Permutation_sym. exact Hp.
+    - cbn [kids]. rewrite map_map. cbn [fst]. unfold key_token.
+      replace (map (fun x : key * obj => decode (encode (key_str (fst x)))) kvs) with (map key_str (map fst kvs)).
+      + apply should_flatten_spec in SF. tauto.
+      + rewrite map_map. apply map_ext. intro a. rewrite decode_encode. reflexivity. }
+  assert (L : forall k v, In (k, v) kvs -> assoc_str (key_str k) dec = Some v).
+  { intros k v Hin. apply assoc_str_in; [exact ND|]. rewrite Edec. apply in_map_iff.
+    exists (key_token k, v). cbn [fst snd]. unfold key_token at 1. rewrite decode_encode. split; [reflexivity|].
+    apply (Permutation_in _ (Permutation_sym Hp)). cbn [kids]. apply in_map_iff. exists (k, v). auto. }
+  f_equal. f_equal. clear -L. induction kvs as [|[k v] kvs IH]; [reflexivity|].
+  cbn [map fst flat_map]. rewrite (L k v (or_introl eq_refl)). cbn [app]. f_equal. apply IH.
+  intros k' v' Hin. apply L. right. exact Hin.
+Qed.
+
+Lemma populate_kids : forall o vals, wf_obj o -> is_leaflike o = false ->
+  Permutation vals (kids o) -> populate (entry_of o) vals = Some o.
+Proof.
+  intros o vals W L Hp. destruct o as [l|xs|ord kvs]; cbn [is_leaflike] in L.
+  - discriminate.
+  - cbn [entry_of]. apply populate_list. exact Hp.
+  - apply negb_false_iff in L. unfold wf_obj in W. cbn [wf_objb] in W. rewrite L in W.
+    apply andb_true_iff in W. destruct W as [KD _]. cbn [entry_of]. apply populate_dict; assumption.
+Qed.
+
+(* ================================================================== 6. build = the inverse of flatten *)
+(* nesting depth of flattened containers (fuel measure) *)
+Fixpoint hgt (o : obj) : nat :=
+  match o with
+  | Leaf _ => O
+  | OList xs => S (fold_right (fun x a => Nat.max (hgt x) a) O xs)
+  | ODict _ kvs => if should_flatten (map fst kvs)
+                   then S (fold_right (fun kv a => Nat.max (hgt (snd kv)) a) O kvs) else O
+  end.
+
+Lemma fold_max_ge : forall {A} (f : A -> nat) l x, In x l -> (f x <= fold_right (fun y a => Nat.max (f y) a) O l)%nat.
+Proof.
+  intros A f l x. induction l as [|y l IH]; cbn [In fold_right]; intro H; [destruct H|].
+  destruct H as [E|H]; [subst; lia | specialize (IH H); lia].
+Qed.
+
+Lemma hgt_kids : forall o t c, is_leaflike o = false -> In (t, c) (kids o) -> (hgt c < hgt o)%nat.
+Proof.
+  intros o t c L Hin. destruct o as [l|xs|ord kvs]; cbn [is_leaflike] in L.
+  - discriminate.
+  - cbn [kids] in Hin. apply in_combine_snd in Hin. cbn [hgt].
+    pose proof (fold_max_ge hgt xs c Hin). lia.
+  - apply negb_false_iff in L. cbn [hgt]. rewrite L. cbn [kids] in Hin. apply in_map_iff in Hin.
+    destruct Hin as [kv [E Hin]]. inversion E; subst.
+    pose proof (fold_max_ge (fun kv => hgt (snd kv)) kvs kv Hin). cbn beta in H. lia.
+Qed.
+
+Definition has_prefix (P q : path) : Prop := exists r, q = P ++ r.
+
+(* the manifest / leaf map handed to inflate agrees with flatten's output on every path below P;
+   anything else (other prefixes, order) is arbitrary *)
+Definition agree_m (m : manifest) (o : obj) (P : path) : Prop :=
+  forall q e, has_prefix P q -> (In (q, e) m <-> In (q, e) (fst (flatten o P))).
+Definition agree_l (lm : leafmap) (o : obj) (P : path) : Prop :=
+  forall q x, has_prefix P q -> (In (q, x) lm <-> In (q, x) (snd (flatten o P))).
+
+Lemma kid_unique : forall o t c c', is_leaflike o = false -> In (t, c) (kids o) -> In (t, c') (kids o) -> c = c'.
+Proof. intros o t c c' L H1 H2. exact (fst_unique (kids o) t c c' (kids_tokens_nodup o L) H1 H2). Qed.
+
+Lemma has_prefix_kid : forall P t q, has_prefix (P ++ [t]) q -> has_prefix P q.
+Proof. intros P t q [r E]. exists (t :: r). rewrite E, <- app_assoc. reflexivity. Qed.
+
+Lemma agree_m_kid : forall m o P t c, is_leaflike o = false -> In (t, c) (kids o) ->
+  agree_m m o P -> agree_m m c (P ++ [t]).
+Proof.
+  intros m o P t c L Hk A q e Hp. rewrite (A q e (has_prefix_kid P t q Hp)).
+  rewrite (in_flatten_m_container o P q e L). split.
+  - intros [[E _]|[t' [c' [Hk' Hin]]]].
+    + destruct Hp as [r Er]. rewrite E, <- app_assoc in Er. exfalso. exact (app_cons_neq P t r (eq_sym Er)).
+    + destruct (flatten_prefix c' (P ++ [t'])) as [Hm _]. destruct (Hm q e Hin) as [r' E']. destruct Hp as [r E].
+      rewrite E', <- !app_assoc in E. cbn [app] in E. apply app_cons_inv in E. destruct E as [E _]. subst t'.
+      rewrite (kid_unique o t c c' L Hk Hk'). exact Hin.
+  - intro Hin. right. exists t, c. auto.
+Qed.
+
+Lemma agree_l_kid : forall lm o P t c, is_leaflike o = false -> In (t, c) (kids o) ->
+  agree_l lm o P -> agree_l lm c (P ++ [t]).
+Proof.
+  intros lm o P t c L Hk A q x Hp. rewrite (A q x (has_prefix_kid P t q Hp)).
+  rewrite (in_flatten_l_container o P q x L). split.
+  - intros [t' [c' [Hk' Hin]]].
+    destruct (flatten_prefix c' (P ++ [t'])) as [_ Hl]. destruct (Hl q x Hin) as [r' E']. destruct Hp as [r E].
+    rewrite E', <- !app_assoc in E. cbn [app] in E. apply app_cons_inv in E. destruct E as [E _]. subst t'.
+    rewrite (kid_unique o t c c' L Hk Hk'). exact Hin.
+  - intro Hin. exists t, c. auto.
+Qed.
+
+Lemma has_prefix_self : forall P, has_prefix P P.
+Proof. intro P. exists []. rewrite app_nil_r. reflexivity. Qed.
+Lemma has_prefix_snoc : forall P t, has_prefix P (P ++ [t]).
+Proof. intros P t. exists [t]. reflexivity. Qed.
+
+Lemma child_m_inv : forall m o P t e, is_leaflike o = false -> agree_m m o P -> In (t, e) (children m P) ->
+  exists c, In (t, c) (kids o) /\ is_leaflike c = false /\ e = entry_of c.
+Proof.
+  intros m o P t e L A Hin. apply in_children in Hin. apply (A _ _ (has_prefix_snoc P t)) in Hin.
+  apply (in_flatten_m_container o P _ e L) in Hin. destruct Hin as [[E _]|[t' [c [Hk Hin]]]].
+  - exfalso. exact (app_cons_neq P t [] E).
+  - destruct (flatten_prefix c (P ++ [t'])) as [Hm _]. destruct (Hm _ e Hin) as [r E].
+    rewrite <- app_assoc in E. cbn [app] in E. apply app_cons_inv in E. destruct E as [E1 E2]. subst t' r.
+    apply root_entry in Hin. exists c. tauto.
+Qed.
+
+Lemma child_m_intro : forall m o P t c, is_leaflike o = false -> agree_m m o P -> In (t, c) (kids o) ->
+  is_leaflike c = false -> In (t, entry_of c) (children m P).
+Proof.
+  intros m o P t c L A Hk Lc. apply in_children. apply (A _ _ (has_prefix_snoc P t)).
+  apply (in_flatten_m_container o P _ _ L). right. exists t, c. split; [exact Hk | apply root_entry_in; exact Lc].
+Qed.
+
+Lemma child_l_inv : forall lm o P t x, is_leaflike o = false -> agree_l lm o P -> In (t, x) (children lm P) ->
+  In (t, x) (kids o) /\ is_leaflike x = true.
+Proof.
+  intros lm o P t x L A Hin. apply in_children in Hin. apply (A _ _ (has_prefix_snoc P t)) in Hin.
+  apply (in_flatten_l_container o P _ x L) in Hin. destruct Hin as [t' [c [Hk Hin]]].
+  destruct (flatten_prefix c (P ++ [t'])) as [_ Hl]. destruct (Hl _ x Hin) as [r E].
+  rewrite <- app_assoc in E. cbn [app] in E. apply app_cons_inv in E. destruct E as [E1 E2]. subst t' r.
+  apply root_leaf in Hin. destruct Hin as [Lc E]. subst x. auto.
+Qed.
+
+Lemma child_l_intro : forall lm o P t c, is_leaflike o = false -> agree_l lm o P -> In (t, c) (kids o) ->
+  is_leaflike c = true -> In (t, c) (children lm P).
+Proof.
+  intros lm o P t c L A Hk Lc. apply in_children. apply (A _ _ (has_prefix_snoc P t)).
+  apply (in_flatten_l_container o P _ _ L). exists t, c. split; [exact Hk | apply root_leaf_in; exact Lc].
+Qed.
+
+Lemma hgt_pos : forall o, is_leaflike o = false -> (1 <= hgt o)%nat.
+Proof.
+  intros o L. destruct o as [l|xs|ord kvs]; cbn [is_leaflike] in L; [discriminate | cbn [hgt]; lia |].
+  apply negb_false_iff in L. cbn [hgt]. rewrite L. lia.
+Qed.
+
+Theorem build_correct : forall o, wf_obj o -> is_leaflike o = false ->
+  forall P m lm fuel, NoDup (map fst m) -> NoDup (map fst lm) -> agree_m m o P -> agree_l lm o P ->
+  (hgt o <= fuel)%nat -> build fuel m lm P (entry_of o) = Some o.
+Proof.
+  induction o using obj_kids_ind. intros W L P m lm fuel Nm Nl Am Al Hf.
+  pose proof (hgt_pos o L) as Hp. destruct fuel as [|f]; [lia|]. cbn [build].
+  pose proof (kids_tokens_nodup o L) as NK.
+  set (g := fun te : token * entry =>
+              (fst te, match assoc_str (fst te) (kids o) with Some c => c | None => Leaf 0 end)).
+  assert (G : forall t e c, In (t, c) (kids o) -> g (t, e) = (t, c)).
+  { intros t e c Hk. unfold g. cbn [fst]. rewrite (assoc_str_in (kids o) t c NK Hk). reflexivity. }
+  assert (M : mapM (fun te => option_map (fun o0 => (fst te, o0)) (build f m lm (P ++ [fst te]) (snd te)))
+                   (children m P) = Some (map g (children m P))).
+  { apply mapM_map. intros [t e] Hin. cbn [fst snd].
+    destruct (child_m_inv m o P t e L Am Hin) as [c [Hk [Lc Ee]]]. subst e.
+    rewrite (H t c Hk (wf_kids o W L t c Hk) Lc (P ++ [t]) m lm f Nm Nl
+               (agree_m_kid m o P t c L Hk Am) (agree_l_kid lm o P t c L Hk Al)).
+    - cbn [option_map]. rewrite (G t _ c Hk). reflexivity.
+    - pose proof (hgt_kids o t c L Hk). lia. }
+  rewrite M. apply populate_kids; [exact W | exact L |].
+  assert (C1 : forall t c, In (t, c) (map g (children m P)) -> In (t, c) (kids o) /\ is_leaflike c = false).
+  { intros t c Hin. apply in_map_iff in Hin. destruct Hin as [[t' e] [E Hin]].
+    destruct (child_m_inv m o P t' e L Am Hin) as [c' [Hk [Lc _]]]. rewrite (G t' e c' Hk) in E.
+    inversion E; subst. auto. }
+  assert (C2 : forall t c, In (t, c) (kids o) -> is_leaflike c = false -> In (t, c) (map g (children m P))).
+  { intros t c Hk Lc. apply in_map_iff. exists (t, entry_of c). split; [exact (G t _ c Hk)|].
+    exact (child_m_intro m o P t c L Am Hk Lc). }
+  apply NoDup_Permutation.
+  - apply NoDup_fst_pair. rewrite map_app, map_map.
+    replace (map (fun x => fst (g x)) (children m P)) with (map fst (children m P)) by reflexivity.
+    apply NoDup_app_intro; [exact (children_nodup m P Nm) | exact (children_nodup lm P Nl) |].
+    intros t H1 H2. apply in_map_iff in H1. destruct H1 as [[t1 e] [E1 H1]]. cbn [fst] in E1. subst t1.
+    apply in_map_iff in H2. destruct H2 as [[t2 x] [E2 H2]]. cbn [fst] in E2. subst t2.
+    destruct (child_m_inv m o P t e L Am H1) as [c [Hk [Lc _]]].
+    destruct (child_l_inv lm o P t x L Al H2) as [Hk' Lx].
+    rewrite (kid_unique o t c x L Hk Hk') in Lc. congruence.
+  - apply NoDup_fst_pair. exact NK.
+  - intros [t c]. split.
+    + intro Hin. apply in_app_or in Hin. destruct Hin as [Hin|Hin].
+      * exact (proj1 (C1 t c Hin)).
+      * exact (proj1 (child_l_inv lm o P t c L Al Hin)).
+    + intro Hk. apply in_or_app. destruct (is_leaflike c) eqn:Lc.
+      * right. exact (child_l_intro lm o P t c L Al Hk Lc).
+      * left. exact (C2 t c Hk Lc).
+Qed.
+
+(* ================================================================== 7. inflate (top level) *)
+Lemma hgt_le_manifest : forall o P, (hgt o <= length (fst (flatten o P)))%nat.
+Proof.
+  induction o using obj_ind'; intro P.
+  - cbn. lia.
+  - rewrite (flatten_container (OList xs) P eq_refl). cbn [hgt kids fst flat_kids length]. apply le_n_S.
+    pose proof (list_tokens_length (length xs)) as LT. revert LT.
+    generalize (list_tokens (length xs)) as ts. induction H as [|x xs Hx Hxs IH]; intros ts LT; [cbn; lia|].
+    destruct ts as [|t ts]; [cbn [length] in LT; lia|]. cbn [combine flat_map fold_right fst snd].
+    rewrite app_length. cbn [length] in LT. specialize (IH ts ltac:(lia)). specialize (Hx (P ++ [t])). lia.
+  - cbn [hgt]. destruct (should_flatten (map fst kvs)) eqn:SF; [|lia].
+    assert (L : is_leaflike (ODict ord kvs) = false) by (cbn [is_leaflike]; rewrite SF; reflexivity).
+    rewrite (flatten_container (ODict ord kvs) P L). cbn [kids fst flat_kids length]. apply le_n_S.
+    clear SF L. induction H as [|kv kvs Hx Hxs IH]; [cbn; lia|].
+    cbn [map flat_map fold_right fst snd]. rewrite app_length. specialize (Hx (P ++ [key_token (fst kv)])). lia.
+Qed.
+
+Lemma head_is_prefix : forall p q, head_is p q = true <-> has_prefix [p] q.
+Proof.
+  intros p q. unfold head_is, has_prefix. destruct q as [|t r]; split.
+  - discriminate.
+  - intros [r E]. discriminate.
+  - intro H. apply str_eqb_eq in H. subst. exists r. reflexivity.
+  - intros [r' E]. inversion E. apply str_eqb_refl.
+Qed.
+
+Lemma NoDup_map_filter : forall {A B} (f : A -> B) (g : A -> bool) l, NoDup (map f l) -> NoDup (map f (filter g l)).
+Proof.
+  intros A B f g l. induction l as [|x l IH]; cbn [map filter]; intro N; [constructor|].
+  inversion N as [|? ? Hx N']; subst. destruct (g x); [|exact (IH N')]. cbn [map]. constructor; [|exact (IH N')].
+  intro K. apply Hx. apply in_map_iff in K. destruct K as [y [E Hy]]. apply filter_In in Hy.
+  apply in_map_iff. exists y. tauto.
+Qed.
+
+Lemma parent_in_manifest : forall o P q, In q (all_paths o P) ->
+  q = P \/ exists e, In (removelast q, e) (fst (flatten o P)).
+Proof.
+  induction o using obj_kids_ind. intros P q Hin. destruct (is_leaflike o) eqn:L.
+  - unfold all_paths in Hin. rewrite (flatten_leaflike o P L) in Hin. cbn in Hin. left. destruct Hin as [E|[]]. auto.
+  - apply (Permutation_in _ (all_paths_container o P L)) in Hin. destruct Hin as [E|Hin]; [left; auto|].
+    right. apply in_flat_map in Hin. destruct Hin as [[t c] [Hk Hin]]. cbn [fst snd] in Hin.
+    destruct (H t c Hk (P ++ [t]) q Hin) as [E|[e He]].
+    + subst q. rewrite removelast_last. exists (entry_of o). apply root_entry_in. exact L.
+    + exists e. apply (in_flatten_m_container o P _ e L). right. exists t, c. auto.
+Qed.
+
+Lemma in_mpaths : forall o P q e, In (q, e) (fst (flatten o P)) -> In q (all_paths o P).
+Proof. intros o P q e H. unfold all_paths. apply in_or_app. left. apply (in_map fst) in H. exact H. Qed.
+Lemma in_lpaths : forall o P q x, In (q, x) (snd (flatten o P)) -> In q (all_paths o P).
+Proof. intros o P q x H. unfold all_paths. apply in_or_app. right. apply (in_map fst) in H. exact H. Qed.
+
+(* Main theorem.  [m] and [lm] are Python dicts (distinct keys) that agree with the output of flatten on every
+   path whose first component is the encoded prefix: any order, any additional entries under other prefixes. *)
+Theorem inflate_correct : forall o prefix m lm, wf_obj o ->
+  NoDup (map fst m) -> NoDup (map fst lm) ->
+  agree_m m o [encode prefix] -> agree_l lm o [encode prefix] ->
+  inflate m lm prefix = Some o.
+Proof.
+  intros o prefix m lm W Nm Nl Am Al. unfold inflate.
+  set (p := encode prefix) in *.
+  set (m' := filter (fun e : path * entry => head_is p (fst e)) m).
+  set (lm' := filter (fun e : path * obj => head_is p (fst e)) lm).
+  assert (Nm' : NoDup (map fst m')) by (apply NoDup_map_filter; exact Nm).
+  assert (Nl' : NoDup (map fst lm')) by (apply NoDup_map_filter; exact Nl).
+  assert (Am' : agree_m m' o [p]).
+  { intros q e Hp. rewrite <- (Am q e Hp). unfold m'. rewrite filter_In. cbn [fst].
+    apply head_is_prefix in Hp. tauto. }
+  assert (Al' : agree_l lm' o [p]).
+  { intros q x Hp. rewrite <- (Al q x Hp). unfold lm'. rewrite filter_In. cbn [fst].
+    apply head_is_prefix in Hp. tauto. }
+  destruct (is_leaflike o) eqn:L.
+  - rewrite (assoc_path_in lm' [p] o Nl'); [reflexivity|].
+    apply (Al' _ _ (has_prefix_self [p])). apply root_leaf_in. exact L.
+  - rewrite assoc_path_none.
+    2:{ intro K. apply in_map_iff in K. destruct K as [[q x] [E K]]. cbn [fst] in E. subst q.
+        apply (Al' _ _ (has_prefix_self [p])) in K. apply root_leaf in K. destruct K. congruence. }
+    rewrite (assoc_path_in m' [p] (entry_of o) Nm').
+    2:{ apply (Am' _ _ (has_prefix_self [p])). apply root_entry_in. exact L. }
+    assert (PO : parents_ok m' lm' [p] = true).
+    { unfold parents_ok. apply forallb_forall. intros q Hq.
+      assert (Hall : In q (all_paths o [p])).
+      { apply in_app_or in Hq. destruct Hq as [Hq|Hq]; apply in_map_iff in Hq; destruct Hq as [[q' v] [E Hq]];
+          cbn [fst] in E; subst q'.
+        - assert (Hp : has_prefix [p] q) by (apply head_is_prefix; unfold m' in Hq; apply filter_In in Hq; tauto).
+          apply (Am' q v Hp) in Hq. exact (in_mpaths o [p] q v Hq).
+        - assert (Hp : has_prefix [p] q) by (apply head_is_prefix; unfold lm' in Hq; apply filter_In in Hq; tauto).
+          apply (Al' q v Hp) in Hq. exact (in_lpaths o [p] q v Hq). }
+      destruct (parent_in_manifest o [p] q Hall) as [E|[e He]].
+      - subst q. rewrite path_eqb_refl. reflexivity.
+      - apply orb_true_iff. right. unfold path_memb. apply existsb_exists. exists (removelast q).
+        split; [|apply path_eqb_refl]. destruct (flatten_prefix o [p]) as [Hm _].
+        apply (Am' _ _ (Hm _ _ He)) in He. apply (in_map fst) in He. exact He. }
+    rewrite PO. apply build_correct; try assumption.
+    pose proof (hgt_le_manifest o [p]) as H1.
+    assert (H2 : (length (fst (flatten o [p])) <= length m')%nat).
+    { apply NoDup_incl_length.
+      - apply NoDup_fst_pair. apply mpaths_nodup.
+      - intros [q e] Hin. destruct (flatten_prefix o [p]) as [Hm _]. exact (proj2 (Am' q e (Hm q e Hin)) Hin). }
+    lia.
+Qed.
+
+Lemma perm_agree_m : forall m o P, Permutation m (fst (flatten o P)) -> NoDup (map fst m) /\ agree_m m o P.
+Proof.
+  intros m o P Hp. split.
+  - apply (Permutation_NoDup (l := map fst (fst (flatten o P)))); [|apply mpaths_nodup].
+    apply Permutation_map. apply Permutation_sym. exact Hp.
+  - intros q e _. split; intro H; [exact (Permutation_in _ Hp H) | exact (Permutation_in _ (Permutation_sym Hp) H)].
+Qed.
+
+Lemma perm_agree_l : forall lm o P, Permutation lm (snd (flatten o P)) -> NoDup (map fst lm) /\ agree_l lm o P.
+Proof.
+  intros lm o P Hp. split.
+  - apply (Permutation_NoDup (l := map fst (snd (flatten o P)))); [|apply lpaths_nodup].
+    apply Permutation_map. apply Permutation_sym. exact Hp.
+  - intros q e _. split; intro H; [exact (Permutation_in _ Hp H) | exact (Permutation_in _ (Permutation_sym Hp) H)].
+Qed.
+
+Theorem inflate_flatten_perm : forall o prefix m lm, wf_obj o ->
+  Permutation m (fst (flatten_top o prefix)) -> Permutation lm (snd (flatten_top o prefix)) ->
+  inflate m lm prefix = Some o.
+Proof.
+  intros o prefix m lm W Hm Hl. unfold flatten_top in *.
+  destruct (perm_agree_m m o _ Hm) as [Nm Am]. destruct (perm_agree_l lm o _ Hl) as [Nl Al].
+  apply inflate_correct; assumption.
+Qed.
+
+Theorem inflate_flatten : forall o prefix, wf_obj o ->
+  inflate (fst (flatten_top o prefix)) (snd (flatten_top o prefix)) prefix = Some o.
+Proof. intros o prefix W. apply inflate_flatten_perm; [exact W | apply Permutation_refl | apply Permutation_refl]. Qed.
+
+(* a dict that _should_flatten_dict rejects is stored whole and comes back as the identical leaf *)
+Theorem opaque_dict_whole : forall ord kvs prefix, should_flatten (map fst kvs) = false ->
+  flatten_top (ODict ord kvs) prefix = ([], [([encode prefix], ODict ord kvs)]) /\
+  inflate [] [([encode prefix], ODict ord kvs)] prefix = Some (ODict ord kvs).
+Proof.
+  intros ord kvs prefix SF.
+  assert (L : is_leaflike (ODict ord kvs) = true) by (cbn [is_leaflike]; rewrite SF; reflexivity).
+  assert (E : flatten_top (ODict ord kvs) prefix = ([], [([encode prefix], ODict ord kvs)]))
+    by (unfold flatten_top; apply flatten_leaflike; exact L).
+  split; [exact E|].
+  assert (W : wf_obj (ODict ord kvs)) by (unfold wf_obj; cbn [wf_objb]; rewrite SF; reflexivity).
+  pose proof (inflate_flatten (ODict ord kvs) prefix W) as I. rewrite E in I. exact I.
+Qed.
+
+(* ================================================================== 8. the string level ("/".join / split("/")) *)
+Lemma kids_token_slash_free : forall o t c, In (t, c) (kids o) -> slash_free t.
+Proof.
+  intros o t c Hin. destruct o as [l|xs|ord kvs]; cbn [kids] in Hin.
+  - destruct Hin.
+  - apply in_combine_l in Hin. unfold list_tokens in Hin. apply in_map_iff in Hin. destruct Hin as [i [E _]].
+    subst t. apply str_of_Z_slash_free.
+  - apply in_map_iff in Hin. destruct Hin as [kv [E _]]. inversion E. apply encode_slash_free.
+Qed.
+
+Lemma all_paths_slash_free : forall o P q, Forall slash_free P -> In q (all_paths o P) -> Forall slash_free q.
+Proof.
+  induction o using obj_kids_ind. intros P q FP Hin. destruct (is_leaflike o) eqn:L.
+  - unfold all_paths in Hin. rewrite (flatten_leaflike o P L) in Hin. cbn in Hin. destruct Hin as [E|[]]. subst. exact FP.
+  - apply (Permutation_in _ (all_paths_container o P L)) in Hin. destruct Hin as [E|Hin]; [subst; exact FP|].
+    apply in_flat_map in Hin. destruct Hin as [[t c] [Hk Hin]]. cbn [fst snd] in Hin.
+    apply (H t c Hk (P ++ [t]) q); [|exact Hin]. apply Forall_app. split; [exact FP|].
+    constructor; [exact (kids_token_slash_free o t c Hk) | constructor].
+Qed.
+
+Lemma split_join_path : forall o prefix q, In q (all_paths o [encode prefix]) -> split (join q) = q.
+Proof.
+  intros o prefix q Hin. apply split_join.
+  - apply all_paths_prefix in Hin. destruct Hin as [r E]. subst q. discriminate.
+  - apply (all_paths_slash_free o [encode prefix] q); [|exact Hin]. constructor; [apply encode_slash_free | constructor].
+Qed.
+
+Lemma map_id_on : forall {A} (f : A -> A) l, (forall x, In x l -> f x = x) -> map f l = l.
+Proof.
+  intros A f l. induction l as [|x l IH]; intro H; [reflexivity|]. cbn [map].
+  rewrite (H x (or_introl eq_refl)), IH; [reflexivity|]. intros y Hy. apply H. right. exact Hy.
+Qed.
+
+Lemma split_flatten_s_m : forall o prefix,
+  map (fun e : pystr * entry => (split (fst e), snd e)) (fst (flatten_s o prefix)) = fst (flatten_top o prefix).
+Proof.
+  intros o prefix. unfold flatten_s. cbn [fst]. rewrite map_map. cbn [fst snd]. apply map_id_on.
+  intros [q e] Hin. cbn [fst snd]. unfold flatten_top in Hin. rewrite (split_join_path o prefix q); [reflexivity|].
+  exact (in_mpaths _ _ q e Hin).
+Qed.
+
+Lemma split_flatten_s_l : forall o prefix,
+  map (fun e : pystr * obj => (split (fst e), snd e)) (snd (flatten_s o prefix)) = snd (flatten_top o prefix).
+Proof.
+  intros o prefix. unfold flatten_s. cbn [snd]. rewrite map_map. cbn [fst snd]. apply map_id_on.
+  intros [q e] Hin. cbn [fst snd]. unfold flatten_top in Hin. rewrite (split_join_path o prefix q); [reflexivity|].
+  exact (in_lpaths _ _ q e Hin).
+Qed.
+
+(* what the code really does: string paths, any order of the two dicts *)
+Theorem inflate_s_flatten_s_perm : forall o prefix ms ls, wf_obj o ->
+  Permutation ms (fst (flatten_s o prefix)) -> Permutation ls (snd (flatten_s o prefix)) ->
+  inflate_s ms ls prefix = Some o.
+Proof.
+  intros o prefix ms ls W Hm Hl. unfold inflate_s. apply inflate_flatten_perm; [exact W | |].
+  - rewrite <- split_flatten_s_m. apply Permutation_map. exact Hm.
+  - rewrite <- split_flatten_s_l. apply Permutation_map. exact Hl.
+Qed.
+
+(* distinct token paths stay distinct as "/"-joined strings *)
+Lemma join_inj_on_paths : forall o prefix q1 q2,
+  In q1 (all_paths o [encode prefix]) -> In q2 (all_paths o [encode prefix]) -> join q1 = join q2 -> q1 = q2.
+Proof.
+  intros o prefix q1 q2 H1 H2 E. rewrite <- (split_join_path o prefix q1 H1), <- (split_join_path o prefix q2 H2), E.
+  reflexivity.
+Qed.
+
+Lemma NoDup_map_inj_on : forall {A B} (f : A -> B) l,
+  (forall a b, In a l -> In b l -> f a = f b -> a = b) -> NoDup l -> NoDup (map f l).
+Proof.
+  intros A B f l Hf N. induction N as [|x l Hx N IH]; cbn [map]; constructor.
+  - intro K. apply in_map_iff in K. destruct K as [y [E Hy]].
+    apply Hf in E; [subst; contradiction | right; exact Hy | left; reflexivity].
+  - apply IH. intros a b Ha Hb. apply Hf; right; assumption.
+Qed.
+
+Theorem flatten_s_paths_nodup : forall o prefix,
+  NoDup (map fst (fst (flatten_s o prefix)) ++ map fst (snd (flatten_s o prefix))).
+Proof.
+  intros o prefix. unfold flatten_s. cbn [fst snd]. rewrite !map_map. cbn [fst].
+  rewrite <- (map_map fst join), <- (map_map fst join), <- map_app.
+  apply NoDup_map_inj_on; [|exact (all_paths_nodup o [encode prefix])].
+  intros a b Ha Hb. exact (join_inj_on_paths o prefix a b Ha Hb).
 Qed.
